@@ -27,13 +27,18 @@ BODIES = {
 NAMES = ["test_add", "test_addition", "test_add_more", "test_sub", "test_subtract", "test_mul", "test_parse", "test_parse_int", "test_io", "test_misc"]
 
 
-def gen_file(r, fidx, ntests):
+def gen_file(r, fidx, ntests, first_name=None, plan=None):
     lines = ["from testing import assert, assert_eq, assert_ne, assert_true, assert_false, fail", "", ""]
     tests = []
     names = r.sample(NAMES, ntests)
-    for n in names:
+    if first_name is not None:
+        # the same test name as the previous file's last test: tests are identified by file AND name
+        names = [first_name] + [n for n in names if n != first_name][:ntests - 1]
+    for pos, n in enumerate(names):
         kind = r.choice(list(BODIES))
         marker = r.choice([None, None, None, "skip", "xfail", "slow"])
+        if plan is not None and pos < len(plan):
+            kind, marker = plan[pos]
         tid = "f%d_%s" % (fidx, n)
         body, truth = BODIES[kind]
         if marker == "skip":
@@ -195,7 +200,16 @@ def gen_scenario(r):
     files, tests = {}, {}
     for i in range(nfiles):
         fn = "test_%s.incn" % r.choice(["math", "io", "core", "util"]) if i == 0 else "test_more%d.incn" % i
-        txt, ts = gen_file(r, i, r.randint(1, 4))
+        prev_last = tests[list(tests)[-1]][-1]["name"] if tests and r.random() < 0.5 else None
+        plan = None
+        nt = r.randint(1, 4)
+        if i == 0 and r.random() < 0.35:
+            # verdict kinds in an order that matters for fail-fast (-x): non-failures (XFAIL, SKIPPED, XPASS...) before a real failure
+            fails = [k for k in BODIES if BODIES[k][1] == "fail"]
+            passes = [k for k in BODIES if BODIES[k][1] == "pass"]
+            plan = [(r.choice(passes), None), (r.choice(fails), "xfail"), (r.choice(passes + fails), r.choice(["skip", "xfail"])), (r.choice(fails), None)]
+            nt = r.randint(4, 5)
+        txt, ts = gen_file(r, i, nt, first_name=prev_last, plan=plan)
         files[fn] = txt
         tests[fn] = ts
     flags = {}
@@ -204,7 +218,7 @@ def gen_scenario(r):
         flags["k"] = r.choice(["add", "sub", "parse", "addition", "test_"])
     if r.random() < 0.3:
         flags["slow"] = True
-    if r.random() < 0.2:
+    if r.random() < 0.3:
         flags["x"] = True
     return {"files": files, "tests": tests, "flags": flags}
 
